@@ -2427,14 +2427,14 @@ def _values_check(f, ff_info):
     mattol = 1.0e-12
 
     f.write("\nMass values check:\n")
-    mxmqqerr = np.max(np.abs(np.diag(mqq) - 1.0))
+    mxmqqerr = np.max(np.abs(np.diag(mqq) - 1.0), initial=0.0)
     error_flag += _prt_chk_str(
         f,
         ("\tMaximum value of diag(MQQ)-1.0    = {:11g}  (should be zero)"),
         mxmqqerr,
         mattol,
     )
-    mxmqqerr = abs(mqq - np.diag(np.diag(mqq))).max()
+    mxmqqerr = abs(mqq - np.diag(np.diag(mqq))).max(initial=0.0)
     error_flag += _prt_chk_str(
         f,
         ("\tMaximum off-diagonal value of MQQ = {:11g}  (should be zero)"),
@@ -2442,10 +2442,10 @@ def _values_check(f, ff_info):
         mattol,
     )
 
-    mnkqq = np.min(np.diag(kqq))
-    mxkqqerr = np.max(np.abs(kqq - np.diag(np.diag(kqq))))
+    mnkqq = np.min(np.diag(kqq), initial=np.inf)
+    mxkqqerr = np.max(np.abs(kqq - np.diag(np.diag(kqq))), initial=0.0)
     mxkbb = np.max(np.abs(kbb))
-    mxkbq = abs(kbq).max()
+    mxkbq = abs(kbq).max(initial=0.0)
     f.write("\nStiffness values checks:\n")
     _prt_chk_str(
         f,
